@@ -19,7 +19,7 @@ RULE = ("all interleavings (at loads/stores of __coords/__precompute of shared o
         "{x, y, scale, to_affine, ==, +, double, neg, * k, mul_add, pickle, verify} x {plain point (z != 1), generator "
         "(table built lazily by the first multiplication), table already built}, on two prime-order toy curves; DFS with "
         "hashing of (cells, per-thread read history); key level: all pairs of {precompute, precompute(lazy), verify_digest, "
-        "to_string, point.x, point*k, pickle} on one shared VerifyingKey (the point object swapped in by precompute becomes "
+        "to_string (raw, compressed), point.x, point*k, pickle, sign_digest (on the shared curve generator)} on one shared key pair (the point object swapped in by precompute becomes "
         "a shared object when published); 3 threads with <= 2 preemptions: 12 delicate triples (quick), 160 random triples "
         "(thorough); a schedule is distinct by "
         "(operations, variant, choice list); every modelled pair is also replayed on the Lean model step by step")
@@ -192,6 +192,7 @@ class KeyScenario:
         if vk.pubkey.point is not Q:
             raise RuntimeError("from_public_point copied the point")
         self.vk = vk
+        self.sk = sk
         return [Q, G]
 
 
@@ -212,10 +213,15 @@ def key_operations(scn):
         "k_point_x": lambda o, vk: vk.pubkey.point.x(),
         "k_point_mul": lambda o, vk: vk.pubkey.point * 4,
         "k_pickle": lambda o, vk: pickle.loads(pickle.dumps(vk.pubkey.point)),
+        # signing uses the curve generator G, the most shared point object in practice (one per curve, module-global)
+        "k_sign": lambda o, vk: scn.sk.sign_digest(scn.dg, k=scn.k, allow_truncate=True),
+        "k_sign2": lambda o, vk: scn.sk.sign_digest(b"\x09", k=7, allow_truncate=True),
+        "k_compressed": lambda o, vk: vk.to_string("compressed"),
     }
 
 
-KEY_OPS = ["k_precompute", "k_precompute_lazy", "k_verify", "k_to_string", "k_point_x", "k_point_mul", "k_pickle"]
+KEY_OPS = ["k_precompute", "k_precompute_lazy", "k_verify", "k_to_string", "k_point_x", "k_point_mul", "k_pickle", "k_sign",
+           "k_sign2", "k_compressed"]
 
 
 def _verify_op(toy):
